@@ -36,6 +36,7 @@ func (a alphabet) ops() []Op {
 	}
 	if a.oversize {
 		ops = append(ops, Op{K: 'O', P: a.paths[len(a.paths)/2]})
+		ops = append(ops, Op{K: 'U', P: a.paths[len(a.paths)/2]}, Op{K: 'U', P: a.paths[1]})
 	}
 	if a.flush && a.kind != Mem {
 		ops = append(ops, Op{K: 'F'})
